@@ -324,5 +324,5 @@ func payloadClass(s string) string {
 }
 
 func TestC19(t *testing.T) {
-	drv.Main(t, drv.Driver{ID: "C19", Gen: gen19, Run: run19, CaseTimeout: 2 * time.Minute})
+	drv.Main(t, drv.Driver{ID: "C19", Gen: gen19, Run: run19, CaseTimeout: 15 * time.Minute})
 }
